@@ -24,6 +24,19 @@ type c02Case struct {
 	Extra  []int       `json:"extra"` // indices into c02Snippets appended to the program
 	Strict bool        `json:"strict,omitempty"`
 	Child  bool        `json:"child,omitempty"` // also render in a fresh process
+	Delims bool        `json:"delims,omitempty"` // every engine is configured with Delims("<<", ">>", "<%", "%>") and the template is written with them
+}
+
+// c02Engine makes an engine in the case's configuration.
+func c02Engine(c *c02Case) *liquid.Engine {
+	e := newEngine(nil)
+	if c.Strict {
+		e.StrictVariables()
+	}
+	if c.Delims {
+		e.Delims("<<", ">>", "<%", "%>")
+	}
+	return e
 }
 
 var c02Snippets = []string{
@@ -41,6 +54,8 @@ var c02Snippets = []string{
 	"{% case m %}{% when m %}same{% endcase %}", "{{ 'now' | size }}",
 	"{% for q in a %}{% cycle 'x', 'y', 'z' %}{{ 10 | divided_by: q }} {% endfor %}", "{% for kv in m %}{% cycle 'p', 'q' %}{{ 6 | divided_by: kv[1] }}{% endfor %}",
 	"{{ '2024-02-29 13:14:15' | date: '%Y-%m-%d %H' }}",
+	"{{ mx[1] }}|{{ mx[2] }}|{{ mx['1'] }}", "{% for kv in mx %}{{ kv[1] }} {% endfor %}", "{{ mx | join: ',' }}", "{{ mx | first | last }}{{ mx | last | last }}",
+	"{% tablerow kv in mx cols: 3 %}{{ kv[1] }}{% endtablerow %}", "{% assign k1 = 1 %}{{ mx[k1] }}{{ mx[f1] }}",
 }
 
 type c02Struct struct {
@@ -108,6 +123,15 @@ func c02Bindings(c *c02Case, variant int) map[string]any {
 		}
 	}
 	out["mi"], out["ma"] = mi, ma
+	// keys that are equal as Liquid values but differ in Go type, inserted in an order that varies
+	mx := make(map[any]any, variant%4)
+	type kv struct{ k, v any }
+	pairs := []kv{{int64(1), "one"}, {float64(1), "uno"}, {int8(1), "eins"}, {"1", "str"}, {2, "two"}, {uint8(2), "zwei"}, {float32(2), "deux"}, {true, "yes"}}
+	for j := range pairs {
+		p := pairs[(j*3+variant)%len(pairs)]
+		mx[p.k] = p.v
+	}
+	out["mx"], out["f1"] = mx, 1.0
 	p := 7
 	st := c02Struct{A: 1, P: &p, M: map[string]int{}}
 	for j := range keys {
@@ -160,6 +184,10 @@ func (c *c02Case) source() string {
 	for _, i := range c.Extra {
 		src += "\n" + c02Snippets[i%len(c02Snippets)]
 	}
+	if c.Delims {
+		// plain substitution: whatever comes out is a template or a syntax error, the same for every entry point
+		src = strings.NewReplacer("{{", "<<", "}}", ">>", "{%", "<%", "%}", "%>").Replace(src)
+	}
 	return src
 }
 
@@ -180,13 +208,7 @@ var c02Deterministic = hx.Define("c02.entry-points", func(c *c02Case, s *hx.Sub)
 		keep = append(keep, b)
 		return b
 	}
-	engine := func() *liquid.Engine {
-		e := newEngine(nil)
-		if c.Strict {
-			e.StrictVariables()
-		}
-		return e
-	}
+	engine := func() *liquid.Engine { return c02Engine(c) }
 	type res struct{ label, value string }
 	var results []res
 	add := func(label string, f func() (string, error)) *hx.Violation {
@@ -399,10 +421,7 @@ func TestC02Child(t *testing.T) {
 	if err := json.Unmarshal(b, &c); err != nil {
 		t.Fatal(err)
 	}
-	e := newEngine(nil)
-	if c.Strict {
-		e.StrictVariables()
-	}
+	e := c02Engine(&c)
 	out, rerr := e.ParseAndRenderString(c.source(), c02Bindings(&c, 99))
 	fmt.Printf("C02CHILD:%s\n", base64.StdEncoding.EncodeToString([]byte(resultString(out, errOrNil(rerr)))))
 }
@@ -544,6 +563,7 @@ func TestC02(t *testing.T) {
 	col.Rapid(det.Sub, env.PerShard(env.Pick(20000, 200000)), func(t *rapid.T) {
 		c := &c02Case{P: hx.GenProgram(t, prof), Strict: rapid.IntRange(0, 5).Draw(t, "strict") == 0}
 		c.Extra = rapid.SliceOfN(rapid.IntRange(0, len(c02Snippets)-1), 1, 4).Draw(t, "extra")
+		c.Delims = rapid.IntRange(0, 4).Draw(t, "delims") == 2
 		if rapid.IntRange(0, 60).Draw(t, "child") == 0 && nChild < env.Pick(60, 600) {
 			c.Child = true
 			nChild++
